@@ -467,3 +467,35 @@ func (p *Program) DumpCallers(sub string) {
 		}
 	}
 }
+
+// CheckSitesAny: the function's sites match (closed world) at least one of the
+// given alternative tables - for the few functions where two control-flow
+// shapes with the same meaning are both reviewed (one call with a joined
+// argument <-> one call per branch). Reports the first alternative's findings
+// when none matches.
+func (c *Ctx) CheckSitesAny(rule string, fn *ssa.Function, alts ...[]SiteSpec) {
+	var first *Ctx
+	for i, specs := range alts {
+		tmp := &Ctx{P: c.P, Prop: c.Prop, Tier: c.Tier, rules: map[string]*ruleInfo{}, Extra: map[string]interface{}{}}
+		tmp.checkSites(rule, fn, specs, true)
+		bad := false
+		for _, o := range tmp.Obls {
+			if o.Status == Viol || o.Status == Integrity {
+				bad = true
+			}
+		}
+		if i == 0 {
+			first = tmp
+		}
+		if !bad {
+			first = tmp
+			break
+		}
+	}
+	if first == nil {
+		return
+	}
+	for _, o := range first.Obls {
+		c.add(rule, strings.TrimPrefix(o.Key, rule+"/"), o.Pos, o.Status, o.Detail)
+	}
+}
